@@ -168,6 +168,7 @@ type Attempt struct {
 	ErrText   string
 	ErrKnown  bool
 	Precomp   bool
+	Tree      bool // recorded in the call tree (CALL/CREATE/CREATE2 and top-level call/create)
 }
 
 func memWindow(mem []byte, off, size uint64) []byte {
@@ -184,6 +185,20 @@ func isTreeOp(op byte) bool { return op == CALL || op == CREATE || op == CREATE2
 // BuildAttempts derives, from the instruction stream alone, the list of call
 // attempts that the call tree must contain, in program order.
 func BuildAttempts(sc *Scenario, evs []Ev, fl *FrameLog, obs []Obs) []*Attempt {
+	return buildAttempts(sc, evs, fl, obs, false)
+}
+
+// BuildAllAttempts also lists CALLCODE / DELEGATECALL / STATICCALL attempts
+// (Tree == false), which the call tree does not record.
+func BuildAllAttempts(sc *Scenario, evs []Ev, fl *FrameLog, obs []Obs) []*Attempt {
+	return buildAttempts(sc, evs, fl, obs, true)
+}
+
+func isCallKind(op byte) bool {
+	return op == CALL || op == CALLCODE || op == DELEGATECALL || op == STATICCALL
+}
+
+func buildAttempts(sc *Scenario, evs []Ev, fl *FrameLog, obs []Obs, allKinds bool) []*Attempt {
 	var out []*Attempt
 	byFrame := map[*Frame]*Attempt{}
 	eip150 := forkIndex(sc.Fork) >= 2
@@ -194,7 +209,7 @@ func BuildAttempts(sc *Scenario, evs []Ev, fl *FrameLog, obs []Obs) []*Attempt {
 			inv = int(e.PC)
 			in := &sc.Invs[inv]
 			if in.Kind == "call" || in.Kind == "create" || in.Kind == "create2" {
-				a := &Attempt{Ev: -1, Top: true, Inv: inv, From: in.Caller, Gas: in.Gas, GasKnown: true, Data: append([]byte{}, in.Input...)}
+				a := &Attempt{Ev: -1, Top: true, Tree: true, Inv: inv, From: in.Caller, Gas: in.Gas, GasKnown: true, Data: append([]byte{}, in.Input...)}
 				a.Value, _ = uint256.FromBig(bigOf(in.Value))
 				a.Op = CALL
 				if in.Kind == "call" {
@@ -220,7 +235,7 @@ func BuildAttempts(sc *Scenario, evs []Ev, fl *FrameLog, obs []Obs) []*Attempt {
 			}
 			continue
 		}
-		if e.K != EvStep || !isTreeOp(e.Op) || e.Err != "" {
+		if e.K != EvStep || !(isTreeOp(e.Op) || (allKinds && isCallKind(e.Op))) || e.Err != "" {
 			continue
 		}
 		if i+1 < len(evs) && evs[i+1].K == EvFault && evs[i+1].Depth == e.Depth && evs[i+1].PC == e.PC {
@@ -228,7 +243,7 @@ func BuildAttempts(sc *Scenario, evs []Ev, fl *FrameLog, obs []Obs) []*Attempt {
 		}
 		F := fl.Owner[i]
 		n := len(e.Stack)
-		a := &Attempt{Ev: i, Op: e.Op, Inv: inv, Issuer: F, From: e.Addr}
+		a := &Attempt{Ev: i, Op: e.Op, Inv: inv, Issuer: F, From: e.Addr, Tree: isTreeOp(e.Op)}
 		var off, size uint256.Int
 		switch e.Op {
 		case CALL:
@@ -239,6 +254,22 @@ func BuildAttempts(sc *Scenario, evs []Ev, fl *FrameLog, obs []Obs) []*Attempt {
 			a.To = &to
 			a.Value = new(uint256.Int).Set(&e.Stack[n-3])
 			off, size = e.Stack[n-4], e.Stack[n-5]
+		case CALLCODE:
+			if n < 7 {
+				continue
+			}
+			to := common.Address(e.Stack[n-2].Bytes20())
+			a.To = &to
+			a.Value = new(uint256.Int).Set(&e.Stack[n-3])
+			off, size = e.Stack[n-4], e.Stack[n-5]
+		case DELEGATECALL, STATICCALL:
+			if n < 6 {
+				continue
+			}
+			to := common.Address(e.Stack[n-2].Bytes20())
+			a.To = &to
+			a.Value = new(uint256.Int)
+			off, size = e.Stack[n-3], e.Stack[n-4]
 		case CREATE:
 			if n < 3 {
 				continue
@@ -275,7 +306,7 @@ func BuildAttempts(sc *Scenario, evs []Ev, fl *FrameLog, obs []Obs) []*Attempt {
 				a.Failed = ne.Stack[len(ne.Stack)-1].IsZero()
 			}
 			avail := e.Gas - e.Cost
-			if e.Op == CALL {
+			if e.Op != CREATE && e.Op != CREATE2 {
 				a.Returned, a.RetGasOK = ne.Gas-avail, true
 				if evs[nxt].K == EvStep {
 					a.Ret, a.RetKnown = ne.RData, true
@@ -296,7 +327,7 @@ func BuildAttempts(sc *Scenario, evs []Ev, fl *FrameLog, obs []Obs) []*Attempt {
 			if a.Frame.CloseEv < 0 {
 				a.RetKnown, a.ErrKnown = false, false
 			}
-		} else if e.Op == CALL && a.RetGasOK {
+		} else if e.Op != CREATE && e.Op != CREATE2 && a.RetGasOK {
 			// refused up front: everything supplied comes back
 			a.Gas, a.GasKnown = a.Returned, true
 		}
